@@ -110,13 +110,12 @@ theorem C12_reject_nonstring (i : Input) (h : WF i = true) (target : Int) :
     parse_none_of_not_name i h [] (fun c hc => (WF.facts h).named c hc)
   simp [unmarshalJSON, scan, parseInto, hp]
 
-/-- the three decoders, on every input (a SQL value of Go type `string` excepted: finding region
-    `F_sql_value_string`), are the specification: a declared name yields its constant, anything else an
-    error and an untouched target -/
+/-- the three decoders, on every input (SQL text as `[]byte` or as Go `string` alike), are the
+    specification: a declared name yields its constant, anything else an error and an untouched target -/
 theorem C12_decode_spec (i : Input) (h : WF i = true) (target : Int) :
     (∀ d : JsonIn, (unmarshalJSON (vmOf i) d target).obs = specDecode i.T i.decl d.asName target) ∧
     (∀ s : Name, (unmarshalText (vmOf i) s target).obs = specDecode i.T i.decl (some s) target) ∧
-    (∀ d : SqlIn, (∀ s, d ≠ .str s) → (scan (vmOf i) d target).obs = specDecode i.T i.decl d.asName target) := by
+    (∀ d : SqlIn, (scan (vmOf i) d target).obs = specDecode i.T i.decl d.asName target) := by
   have hinto : ∀ s : Name, (parseInto (vmOf i) s target).obs = specDecode i.T i.decl (some s) target := by
     intro s
     unfold parseInto specDecode
@@ -130,28 +129,23 @@ theorem C12_decode_spec (i : Input) (h : WF i = true) (target : Int) :
     | str s => exact hinto s
     | null => rw [hnull]; rfl
     | other => rfl
-  · intro d hd
+  · intro d
     cases d with
     | bytes s => exact hinto s
-    | str s => exact absurd rfl (hd s)
+    | str s => exact hinto s
     | other => rfl
 
-/-! ### finding region -/
+/-! ### the former finding region F_sql_value_string (repaired in /repo 6a23295) -/
 
-/-- -sql does not round-trip through its own driver.Value: `Value()` returns the name as a Go
-    `string`, `Scan` accepts only `[]byte`; `Scan(Value(c))` is an error for EVERY enum and every
-    declared constant, where the property demands decode(encode(c)) == c -/
-theorem C12_F_sql_value_string_witness (i : Input) (h : WF i = true) (c : Const) (hc : c ∈ i.decl) (target : Int) :
-    F_sql_value_string true = true ∧
-    scan (vmOf i) (.str (encode i.kind i.T (tables i) c.val).text) target = (some .badType, target) ∧
-    specDecode i.T i.decl (SqlIn.str (encode i.kind i.T (tables i) c.val).text).asName target = (true, c.val) := by
-  refine ⟨rfl, rfl, ?_⟩
+/-- -sql round-trips through the very driver.Value it produces: `Value()` returns the name as a Go
+    string and `Scan` now parses a string like bytes, so Scan(Value(c)) = c for every declared constant -/
+theorem C12_sql_value_string_fixed (i : Input) (h : WF i = true) (c : Const) (hc : c ∈ i.decl) (target : Int) :
+    scan (vmOf i) (.str (encode i.kind i.T (tables i) c.val).text) target = (none, c.val) := by
   have he : (encode i.kind i.T (tables i) c.val).text = trim i.T c.name := by
     unfold encode; rw [C04_string_declared i h c hc]; rfl
-  have hp : specValueOf i.T i.decl (trim i.T c.name) = some c.val := by
-    rw [← C04_valuemap i h]
-    exact ((C12_parse_iff i h (trim i.T c.name) c.val).2).mpr ⟨c, hc, rfl, rfl⟩
-  simp [specDecode, SqlIn.asName, he, hp]
+  have hp : parseEnum (vmOf i) (trim i.T c.name) = some c.val :=
+    ((C12_parse_iff i h (trim i.T c.name) c.val).2).mpr ⟨c, hc, rfl, rfl⟩
+  simp [scan, parseInto, he, hp]
 
 /-! ### the former finding regions, now asserted -/
 
